@@ -612,3 +612,4 @@ Print Assumptions rollback_restores.
 Print Assumptions rollback_many.
 Print Assumptions cache_transparent.
 Print Assumptions apply_token_app.
+
